@@ -1,4 +1,5 @@
 import Engeom.Generated.RsC17
+import Engeom.Generated.RsC17_series
 /-
   C17 — translation tie.  Regenerated from the /repo working tree on every run:
   `are_in_ascending_order` (src/common/vec_f64.rs — the test `DiscreteDomain::try_from` and
@@ -45,4 +46,33 @@ theorem domain_linear_eq (a b : α) (n : Nat) : GenRs.DiscreteDomain_linear a b 
   have := foldl_push_eq_map (fun i => (smin a b + ofNatS i * ((smax a b - smin a b) / ofNatS (n - 1)) : α)) (List.range n) []
   simp only [List.nil_append, ofNatS] at this ⊢
   exact this
+
+/-! ### `Series1::shift_by` / `Series1::scaled_by` (the two columns of the Rust struct, zipped, are the
+    model's list of pairs) -/
+
+theorem zip_map_pair {β γ : Type} (f : β → β) (g : γ → γ) (xs : List β) (ys : List γ) :
+    (xs.map f).zip (ys.map g) = (xs.zip ys).map (fun p => (f p.1, g p.2)) := by
+  induction xs generalizing ys with
+  | nil => simp
+  | cons a r ih => cases ys with
+    | nil => simp
+    | cons b t => simp [List.zip_cons_cons, ih]
+
+theorem shift_by_eq (s : SeriesXY α) (dx dy : α) :
+    (GenRs.shift_by s dx dy).x.zip (GenRs.shift_by s dx dy).y = serShiftBy (s.x.zip s.y) dx dy := by
+  unfold GenRs.shift_by serShiftBy
+  exact zip_map_pair (fun v => v + dx) (fun v => v + dy) s.x s.y
+
+/-- scaling by a negative factor reverses both columns (equal lengths: a `Series1` has as many ordinates
+    as abscissae) -/
+theorem scaled_by_eq (s : SeriesXY α) (sx sy : α) (hlen : s.x.length = s.y.length) :
+    (GenRs.scaled_by s sx sy).x.zip (GenRs.scaled_by s sx sy).y = serScaledBy (s.x.zip s.y) sx sy := by
+  unfold GenRs.scaled_by serScaledBy
+  by_cases h : sx < 0
+  · simp only [h, if_true]
+    show (s.x.map (fun v => v * sx)).reverse.zip (s.y.map (fun v => v * sy)).reverse = _
+    have hl : (s.x.map (fun v => v * sx)).length = (s.y.map (fun v => v * sy)).length := by simp [hlen]
+    rw [List.zip_eq_zipWith, ← List.reverse_zipWith hl, ← List.zip_eq_zipWith, zip_map_pair]
+  · simp only [h, if_false]
+    exact zip_map_pair (fun v => v * sx) (fun v => v * sy) s.x s.y
 end C17T
